@@ -101,8 +101,13 @@ class Gen:
         if d <= 0 or r.random() < 0.2:
             return self.leaf(ty) if r.random() < 0.8 else self.const(ty)
         k = r.choice(
-            ["bin", "bin", "bin", "rbin", "rbin", "ident", "ident", "unary", "func", "call", "call", "vec2s", "tup2s", "method", "round", "pospow"]
+            ["bin", "bin", "bin", "rbin", "rbin", "ident", "ident", "unary", "func", "call", "call", "vec2s", "tup2s", "method", "round", "pospow", "div", "div"]
         )
+        if k == "div":
+            # quotient of two random scalars: the numerator is a difference (its support usually straddles zero),
+            # the divisor a strictly positive random value
+            num = ("bin", "-", self.scalar(d - 1), self.scalar(d - 1)) if r.random() < 0.7 else self.scalar(d - 1)
+            return ("bin", "/", num, self.pos(d - 1))
         if k == "bin":
             op = r.choice(["+", "-", "*"])
             return ("bin", op, self.scalar(d - 1), self.scalar(d - 1))
